@@ -45,7 +45,13 @@ fn talk_requests_known(rng: &mut Rng, n: usize) -> (Vec<(NodeAddress, Vec<u8>, V
                     1 => v4(10, 5, 0, i as u8 + 1, 31000 + i as u16),
                     _ => v4(10, 6, 6, i as u8 + 1, 4000 + i as u16),
                 };
-                let e = build_enr(&sk, 1 + rng.below(3), EnrAddr::Socket(advertised), None);
+                // ... single-stack, or dual-stack (the node under test, itself dual-stack, then
+                // prefers the record's IPv6 socket for its own requests)
+                let e = if rng.chance(1, 3) {
+                    crate::peer::peersim::build_enr2(&sk, 1 + rng.below(3), EnrAddr::Socket(advertised), EnrAddr::Socket(v6(0x50 + i as u16, 4100 + i as u16)), None)
+                } else {
+                    build_enr(&sk, 1 + rng.below(3), EnrAddr::Socket(advertised), None)
+                };
                 id = e.node_id().raw();
                 known.push(e);
             }
@@ -176,6 +182,7 @@ pub fn scenario(seed: u64, rep: &mut Report) {
         let mut log: Vec<Value> = Vec::new();
         let mut responses = Vec::new();
         let mut banned_meanwhile: Vec<NodeId> = Vec::new();
+        let mut banned_ips_meanwhile: Vec<std::net::IpAddr> = Vec::new();
         let burst = rng.chance(1, 2);
         let mut i = 0;
         while i < emitted.len() {
@@ -201,6 +208,20 @@ pub fn scenario(seed: u64, rep: &mut Report) {
                         let len = rng.usize(30);
                         let payload = if rng.chance(1, 5) { vec![] } else { rng.bytes(len) };
                         log.push(json!(format!("respond {} with {} bytes", hx(&id), payload.len())));
+                        // (a requester banned while the application held its request is still
+                        // owed its response)
+                        if rng.chance(1, 8) {
+                            let nid = *req.node_id();
+                            if rng.bool() {
+                                rig.discv5.ban_node(&nid, None);
+                                banned_meanwhile.push(nid);
+                            } else {
+                                let ip = emitted.iter().find(|(_, i, _)| *i == id).map(|(src, _, _)| src.socket_addr.ip()).expect("request was emitted");
+                                rig.discv5.ban_ip(ip, None);
+                                banned_ips_meanwhile.push(ip);
+                            }
+                            rep.count("responded_after_requester_was_banned");
+                        }
                         fates.insert(id, Fate::Respond(payload.clone()));
                         if req.respond(payload).is_err() {
                             rep.violation("C20:respond-failed-while-running", "respond() returned an error while the service was running".into(), json!({"scenario_seed": seed.to_string()}));
@@ -247,6 +268,9 @@ pub fn scenario(seed: u64, rep: &mut Report) {
         }
         for nid in banned_meanwhile.drain(..) {
             rig.discv5.ban_node_remove(&nid);
+        }
+        for ip in banned_ips_meanwhile.drain(..) {
+            rig.discv5.ban_ip_remove(&ip);
         }
         // act on everything still held (except those kept for after shutdown)
         if long_hold && !held.is_empty() {
